@@ -278,6 +278,7 @@ func runR(t *testing.T, ch *vs.Choices, prop, tier string, render bool) *vs.RunO
 			var agg *vs.RunOut
 			for n := 1; n <= maxN; n++ {
 				p.Steps[ci].CrashN = n
+				vs.Tick()
 				o := runROne(t, ch, prop, tier, render, p)
 				fired := o.Reach["fault:crash@cachewrite"] > 0
 				if fired {
